@@ -47,6 +47,33 @@ pub fn configs(tier: Tier) -> Vec<String> {
 
 pub fn scenarios(_cfg: &str) -> Vec<Vec<Ev>> {
     let e = Ev::new;
+    let mut v = base_scenarios();
+    // deep queues: n waiters, interior ones cancelled, one set() must reach everybody who is left
+    for (n, cancel, newest_first) in crate::hist::deep_queue_patterns(&[5, 6, 8]) {
+        let mut s = vec![e(RESET, 0, 0)];
+        for i in 0..n {
+            s.push(e(CREATE, i, 0));
+            s.push(e(POLL, i, (i % 2) as u8));
+        }
+        for c in &cancel {
+            s.push(e(DROP_FUT, *c, 0));
+        }
+        s.push(e(SET, 0, 0));
+        s.push(e(RESET, 0, 0));
+        let mut rest = crate::hist::deep_rest(n, &cancel);
+        if newest_first {
+            rest.reverse();
+        }
+        for i in rest {
+            s.push(e(POLL, i, 1));
+        }
+        v.push(s);
+    }
+    v
+}
+
+fn base_scenarios() -> Vec<Vec<Ev>> {
+    let e = Ev::new;
     vec![
         // set(); reset() before the re-poll, after a waker swap
         vec![e(RESET, 0, 0), e(CREATE, 0, 0), e(POLL, 0, 0), e(CREATE, 1, 0), e(POLL, 1, 0), e(POLL, 0, 1), e(SET, 0, 0), e(RESET, 0, 0), e(CREATE, 2, 0), e(POLL, 2, 0), e(POLL, 1, 1), e(POLL, 0, 0), e(POLL, 2, 1)],
